@@ -33,13 +33,15 @@ func verifWrite(t *testing.T, recs []verifRec, e alphabet.Encoding, qid bool) []
 	var buf bytes.Buffer
 	w := NewWriter(&buf)
 	w.QID = qid
-	for _, r := range recs {
+	for k, r := range recs {
 		ql := make([]alphabet.QLetter, len(r.letters))
 		for i := range ql {
 			ql[i] = alphabet.QLetter{L: alphabet.Letter(r.letters[i]), Q: r.quals[i]}
 		}
 		s := linear.NewQSeq(r.name, ql, alphabet.DNA, e)
 		s.Desc = r.desc
+		// the record's position in its coordinate system is not part of the formats: any offset writes the same text
+		s.Offset = []int{0, 3, -2, len(r.letters)}[(k+len(r.letters))%4]
 		before := buf.Len()
 		n, err := w.Write(s)
 		if err != nil {
